@@ -244,14 +244,136 @@ def uset_convert_bounded(seed):
     return ev, None
 
 
+def cbcheck_bounded(seed, n_it):
+    """bounded float: cbcheck on generated FREE 3-D structures (random geometry, 6-DOF nodes, lumped masses with inertia, rigid-link-consistent springs)
+    reduced to Craig-Bampton form by this file's own code: the three rigid-body constructions coincide and equal geometry, the 6x6 mass they imply is
+    that of the structure, rigid-body motion produces no stiffness force, modal effective mass + boundary residual == total mass per direction;
+    boundary set first or last, reference = first or second boundary grid, with and without unit conversion"""
+    import io, warnings
+    sys.path.insert(0, report.REPO)
+    from pyyeti import cb
+    from pyyeti.nastran import n2p
+    import scipy.linalg as la
+    rng = np.random.RandomState(seed + 21)
+    ev = 0
+
+    def skew(p):
+        return np.array([[0, -p[2], p[1]], [p[2], 0, -p[0]], [-p[1], p[0], 0]])
+
+    def Trig(r):
+        T = np.eye(6)
+        T[:3, 3:] = -skew(r)
+        return T
+    for it in range(n_it):
+        nn = rng.randint(5, 8)
+        xyz = rng.randn(nn, 3) * 3
+        N = 6 * nn
+        M = np.zeros((N, N))
+        for i in range(nn):
+            mi = rng.uniform(1, 5)
+            A_ = rng.randn(3, 3)
+            Ii = A_ @ A_.T * 0.2 + 0.3 * np.eye(3)
+            M[6 * i:6 * i + 3, 6 * i:6 * i + 3] = mi * np.eye(3)
+            M[6 * i + 3:6 * i + 6, 6 * i + 3:6 * i + 6] = Ii
+        K = np.zeros((N, N))
+        pairs = [(i, i + 1) for i in range(nn - 1)] + [(0, nn - 1), (1, nn - 2)]
+        for i, j in pairs:
+            A_ = rng.randn(6, 6)
+            Kd = A_ @ A_.T + 6 * np.eye(6)
+            Kd *= 1e3
+            G = np.zeros((6, N))
+            G[:, 6 * i:6 * i + 6] = -Trig(xyz[j] - xyz[i])
+            G[:, 6 * j:6 * j + 6] = np.eye(6)
+            K += G.T @ Kd @ G
+        bn = [0, nn - 1]                                  # two boundary nodes -> indeterminate interface
+        b = np.hstack([np.arange(6 * i, 6 * i + 6) for i in bn])
+        o = np.array([i for i in range(N) if i not in b])
+        Koo, Kob = K[np.ix_(o, o)], K[np.ix_(o, b)]
+        Moo = M[np.ix_(o, o)]
+        phic = -la.solve(Koo, Kob)
+        w, phin = la.eigh(Koo, Moo)
+        nq = [len(o), 5][it % 2]                          # all fixed-interface modes, or truncated
+        phin = phin[:, :nq]
+        T = np.zeros((N, len(b) + nq))
+        T[b, :len(b)] = np.eye(len(b))
+        T[np.ix_(o, np.arange(len(b)))] = phic
+        T[np.ix_(o, len(b) + np.arange(nq))] = phin
+        Mcb, Kcb = T.T @ M @ T, T.T @ K @ T
+        nb = len(b)
+        blast = bool(it % 3 == 1)
+        if blast:
+            perm = np.hstack((np.arange(nb, nb + nq), np.arange(nb)))
+            Mcb, Kcb = Mcb[np.ix_(perm, perm)], Kcb[np.ix_(perm, perm)]
+            bseto = np.arange(nq, nq + nb)
+        else:
+            bseto = np.arange(nb)
+        refnode = [0, 1][(it // 2) % 2]
+        bref = bseto[6 * refnode:6 * refnode + 6]
+        uset = None
+        for k_, i in enumerate(bn):
+            uset = n2p.addgrid(uset, 10 * (k_ + 1), "b", 0, xyz[i], 0)
+        conv = [None, "m2e", (2.0, 3.0)][it % 3] if it >= 2 else None
+        fobj = io.StringIO()
+        with warnings.catch_warnings():
+            warnings.simplefilter("ignore")
+            try:
+                out = cb.cbcheck(fobj, Mcb, Kcb, bseto, bref, uset, uref=xyz[bn[refnode]], conv=conv)
+            except Exception as ex:
+                tb = traceback.extract_tb(ex.__traceback__)
+                return ev, dict(what="cbcheck raises on a valid free Craig-Bampton model: %r at %s:%s" % (ex, tb[-1].filename, tb[-1].lineno), b_last=blast, ref_node=refnode, conv=str(conv))
+        ev += 1
+        lc, mc = (1.0, 1.0) if conv is None else cb._get_conv_factors(conv)
+        ref = xyz[bn[refnode]]
+        # geometry: rigid motion about the reference point at the boundary grids (converted lengths)
+        rbg_want = np.vstack([np.block([[np.eye(3), -skew((xyz[i] - ref) * lc)], [np.zeros((3, 3)), np.eye(3)]]) for i in bn])
+        # the structure's 6x6 rigid-body mass about the reference point, converted units
+        RBfull = np.vstack([np.block([[np.eye(3), -skew(xyz[i] - ref)], [np.zeros((3, 3)), np.eye(3)]]) for i in range(nn)])
+        M6 = RBfull.T @ M @ RBfull
+        S6 = np.diag([1, 1, 1, lc, lc, lc])
+        M6c = mc * S6 @ M6 @ S6
+        prob = None
+        tolg = 1e-6 * max(1.0, abs(rbg_want).max())
+        if out.rbg.shape != rbg_want.shape or abs(out.rbg - rbg_want).max() > tolg:
+            prob = "geometry-based rigid-body modes are not the rigid motion of the boundary grids about the reference point"
+        elif abs(out.rbs[out.bset] - rbg_want).max() > 1e-5 * max(1.0, abs(rbg_want).max()) or abs(out.rbe[out.bset] - rbg_want).max() > 1e-4 * max(1.0, abs(rbg_want).max()):
+            prob = "stiffness-/eigenvalue-based rigid-body modes differ from the geometry-based ones on the boundary"
+        else:
+            ms = out.rbs.T @ out.m @ out.rbs
+            mg = out.rbg.T @ out.m[np.ix_(out.bset, out.bset)] @ out.rbg
+            if abs(ms - M6c).max() > 1e-6 * abs(M6c).max():
+                prob = "mass / cg / inertia implied by the stiffness-based rigid-body modes are not those of the underlying structure"
+            elif abs(out.k @ out.rbs).max() > 1e-6 * abs(out.k).max():
+                prob = "rigid-body motion produces stiffness force"
+            else:
+                q = np.array([i for i in range(out.m.shape[0]) if i not in out.bset])
+                mqb = out.m[np.ix_(q, out.bset)]
+                em = (mqb @ out.rbg) ** 2
+                tot = np.diag(mg)
+                if not np.allclose(np.asarray(out.effmass), em, rtol=1e-8, atol=1e-10 * abs(em).max()):
+                    prob = "effmass table is not (Mqb rb)^2 per fixed-base mode"
+                elif not np.allclose(np.asarray(out.effmass_percent), 100 * em / tot, rtol=1e-8, atol=1e-9):
+                    prob = "effmass_percent is not 100 effmass / total"
+                else:
+                    resid = np.diag(out.rbg.T @ (out.m[np.ix_(out.bset, out.bset)]) @ out.rbg) - em.sum(axis=0)
+                    # with ALL fixed-interface modes kept, effective mass + boundary residual == the structure's total in each direction
+                    bound_only = np.diag(out.rbg.T @ (out.m[np.ix_(out.bset, out.bset)] - mqb.T @ mqb) @ out.rbg)
+                    if nq == len(o) and not np.allclose(em.sum(axis=0) + bound_only, np.diag(M6c), rtol=1e-6):
+                        prob = "modal effective mass + boundary residual != total mass in each direction"
+                    frq_want = np.sqrt(np.abs(w[:nq])) / (2 * np.pi)
+                    if prob is None and not np.allclose(np.sort(out.cb_frq), np.sort(frq_want), rtol=1e-6):
+                        prob = "fixed-base frequencies changed (unit conversion / reordering must leave them unchanged)"
+        if prob:
+            return ev, dict(what="cbcheck: " + prob, nodes=int(nn), b_last=blast, ref_node=refnode, conv=str(conv), kept_modes=int(nq))
+    return ev, None
+
+
 def run(tier, seed):
     run = report.Run(PID, tier, seed)
     run.trust("sympy (polynomial/rational identities)", "vc.alg / vc.npx shims (np.allclose in ytools.mattype is decided at the witness: the symmetric precondition holds by construction)")
     run.assume("floats are reals", "cgmass: the 6x6 mass is that of one rigid body (m, I_cg, cg offset all symbolic): M = T^T diag(m I, I_cg) T",
                "cbtf: Craig-Bampton form (no b-q stiffness coupling), diagonal q-q blocks, 2 boundary + 2 modal DOF, all values symbolic",
                "cbreorder: all ordered b-sets of matrices of order <= 4 (entries symbolic); cbconvert: one boundary grid (6 DOF) + 0..2 modal DOF")
-    run.not_covered += ["cbcheck: coincidence of stiffness-, geometry- and eigenvalue-based rigid-body modes, effective-mass bookkeeping, grounding numbers, report text "
-                        "(depends on eigh/solve numerics and tolerances; no contract within reach decides it)", "mk_net_drms, rbmultchk, rbdispchk",
+    run.not_covered += ["cbcheck deductively (eigh/solve numerics and tolerances): bounded float check on generated structures only; report text", "mk_net_drms, rbmultchk, rbdispchk",
                         "uset_convert (pandas): bounded float check only"]
     for rel, names in ((CB, ("cgmass", "cbtf", "cbreorder", "cbconvert", "_get_conv_factors", "uset_convert")), (YT, ("multmd", "mkpattvec", "mattype")), (LOC, ("flippv",))):
         for nd in ast.walk(ast.parse(report.read_source(rel))):
@@ -271,12 +393,18 @@ def run(tier, seed):
     run.bounded.append(dict(name="float: uset_convert on generated USET tables (rectangular, offset cylindrical and spherical output systems) - only location and origin rows "
                                  "scale; rbgeom_uset of the converted table == unit-converted rigid-body modes", evaluations=ev, failures=0 if cf is None else 1,
                             label="bounded (never counted as proved)"))
+    ev2, cf2 = cbcheck_bounded(seed, 6 if tier == "quick" else 60)
+    run.bounded.append(dict(name="float: cbcheck on generated free 3-D structures (own Craig-Bampton reduction, 2 boundary grids, b-set first/last, reference = first/second grid, "
+                                 "all/truncated modes, unit conversion): three rigid-body constructions coincide with geometry, mass properties of the structure, no grounding, "
+                                 "effective-mass bookkeeping, fixed-base frequencies", evaluations=ev2, failures=0 if cf2 is None else 1, label="bounded (never counted as proved)"))
     failed = [v for v in run.verdicts if v.status == "failed"]
     if failed:
         v = failed[0]
         run.violation(v.name, "; ".join(x.name[:90] for x in failed[:5]), dict(failed=[x.as_dict() for x in failed[:8]], concrete=v.detail), concrete=True)
     elif cf is not None:
         run.violation("bounded:uset_convert", cf["what"], dict(concrete=cf), concrete=True)
+    elif cf2 is not None:
+        run.violation("bounded:cbcheck", cf2["what"], dict(concrete=cf2), concrete=True)
     return run.finish()
 
 
